@@ -17,6 +17,8 @@ structure URow where
   dieOff : Nat
   stmt : Option Nat
   dies : List DIE
+  /-- (DIE offset, attribute name, the form is DW_FORM_ref_addr, raw value) -/
+  refs : List (Nat × String × Bool × Nat)
 
 def natOpt (i : Int) : Option Nat := if i < 0 then none else some i.toNat
 
@@ -26,17 +28,28 @@ def parseUnit (j : Json) : Except String URow := do
     let off ← jNatOf o
     let dieOff ← jNatOf d
     let stmt := natOpt (← jIntOf st)
+    let rowOf (ro rs : Json) (ch nl : Bool) (sib : Json) : Except String DIE := do
+      let ro ← jNatOf ro
+      return ({ offset := ro, size := ← jNatOf rs, hasChildren := ch, isNull := nl, sibling := natOpt (← jIntOf sib),
+                stmt := if ro = dieOff then stmt else none, payload := ro } : DIE)
     let dies ← rows.toList.mapM fun r =>
       match r with
-      | .arr #[ro, rs, .bool ch, .bool nl, sib] => do
-        let ro ← jNatOf ro
-        return ({ offset := ro, size := ← jNatOf rs, hasChildren := ch, isNull := nl, sibling := natOpt (← jIntOf sib),
-                  stmt := if ro = dieOff then stmt else none, payload := ro } : DIE)
+      | .arr #[ro, rs, .bool ch, .bool nl, sib] => rowOf ro rs ch nl sib
+      | .arr #[ro, rs, .bool ch, .bool nl, sib, _] => rowOf ro rs ch nl sib
       | _ => .error "bad die row"
-    return ⟨off, ← jNatOf s, dieOff, stmt, dies⟩
+    let refs ← rows.toList.mapM fun r =>
+      match r with
+      | .arr #[ro, _, _, _, _, .arr rf] => do
+        let ro ← jNatOf ro
+        rf.toList.mapM fun x =>
+          match x with
+          | .arr #[.str name, .bool isAddr, raw] => do return (ro, name, isAddr, ← jNatOf raw)
+          | _ => .error "bad ref row"
+      | _ => pure []
+    return ⟨off, ← jNatOf s, dieOff, stmt, dies, refs.flatten⟩
   | _ => .error "bad unit"
 
-def mkFile (size : Nat) (us : List URow) (secs syms : List String) : File :=
+def mkFile (size : Nat) (us : List URow) (secs syms : List String) (pub : Option (List (String × Nat × Nat))) : File :=
   { size := size
     parseCU := fun o =>
       match us.find? (·.off == o) with
@@ -50,7 +63,22 @@ def mkFile (size : Nat) (us : List URow) (secs syms : List String) : File :=
         | none => .error .elfParseError
       | none => .error .elfParseError
     secNames := secs
-    symNames := syms }
+    symNames := syms
+    refAttr := fun cu o name =>
+      match us.find? (·.off == cu) with
+      | some u => (u.refs.find? (fun r => r.1 == o && r.2.1 == name)).map (·.2.2)
+      | none => none
+    pubnames := pub }
+
+def parsePub (req : Json) : Except String (Option (List (String × Nat × Nat))) :=
+  match req.getObjVal? "pubnames" with
+  | .ok (.arr a) => do
+    let l ← a.toList.mapM fun x =>
+      match x with
+      | .arr #[.str n, c, d] => do return (n, ← jNatOf c, ← jNatOf d)
+      | _ => .error "bad pubnames row"
+    return some l
+  | _ => pure none
 
 def strList (j : Json) (k : String) : List String :=
   match j.getObjVal? k with
@@ -82,6 +110,9 @@ def parseOp (j : Json) : Except String Op := do
   | .arr #[.str "it_next", h] => return .itNext (← jNatOf h)
   | .arr #[.str "sec_idx", .str n] => return .secIdx n
   | .arr #[.str "sym_n", .str n] => return .symByName n
+  | .arr #[.str "siblings", c, o] => return .siblings (← jNatOf c) (← jNatOf o)
+  | .arr #[.str "ref", c, o, .str n] => return .ref (← jNatOf c) (← jNatOf o) n
+  | .arr #[.str "pubname", .str n] => return .pubname n
   | _ => .error s!"bad op {j.compress}"
 
 def ansJson : Ans → Json
@@ -116,7 +147,7 @@ def handle (req : Json) : Except String Json := do
   if kind != "hist" then .error s!"C10: unknown kind {kind}"
   let size ← jNat req "size"
   let us ← (← jArr req "units").mapM parseUnit
-  let F := mkFile size us (strList req "secs") (strList req "syms")
+  let F := mkFile size us (strList req "secs") (strList req "syms") (← parsePub req)
   let ops ← (← jArr req "ops").mapM parseOp
   let pos0 := (jNat req "pos0").toOption.getD 0
   let mut st := { State.init with pos := pos0 }
